@@ -15,7 +15,8 @@ Proof.
   - eapply stepF_main; eauto.
   - eapply stepF_main; eauto.
   - eapply stepF_main; eauto 6.
-  - eapply stepF_main; eauto 6.
+  - eapply stepF_main; eauto 7.
+  - eapply stepF_main; eauto 7.
   - eapply stepF_notify; eauto.
   - eapply stepF_swap; eauto.
   - eapply stepF_done; eauto.
